@@ -1,8 +1,8 @@
 ---------------------------- MODULE InstancesMC ----------------------------
 (* populations for Instances.tla; Pop selects one *)
 EXTENDS Integers, Sequences, FiniteSets, TLC
-CONSTANT Pop
-VARIABLES est, ecnt, dst, dcnt, geom, rtcd, head, mine, bad
+CONSTANTS Pop, Bar
+VARIABLES est, ecnt, builders, dst, dcnt, geom, rtcd, head, mine, bad
 
 EncOf == CASE Pop = "same"      -> {"e1", "e2"}
            [] Pop = "same3"     -> {"e1", "e2", "e3"}
@@ -18,7 +18,7 @@ SbOf == CASE Pop = "diffsb" -> [e \in EncOf |-> IF e = "e1" THEN 128 ELSE 64]
 FlagsOf == CASE Pop = "diffflags" -> [e \in EncOf |-> IF e = "e1" THEN {"c"} ELSE {"c", "avx2"}]
              [] OTHER             -> [e \in EncOf |-> {"c", "avx2"}]
 
-I == INSTANCE Instances WITH Enc <- EncOf, Dec <- DecOf, Sb <- SbOf, Flags <- FlagsOf, Steps <- 2, Allocs <- 2
+I == INSTANCE Instances WITH Enc <- EncOf, Dec <- DecOf, Sb <- SbOf, Flags <- FlagsOf, Barrier <- Bar, Steps <- 2, Allocs <- 2
 Spec == I!Spec
 FairSpec == I!FairSpec
 NoInterference == I!NoInterference
